@@ -4,7 +4,7 @@
 For each mutant in selftest/mutants.py: copy /repo to a scratch dir, apply the textual edit,
 run ./check <prop> against the copy (PV_REPO), require exit 1 and a VIOLATION whose report key
 contains the expected substring. `--silent` entries must stay silent (behaviour-preserving edits).
-Usage: selftest/run.py [id-substring ...] [-j N]
+Usage: selftest/run.py [--seeded | --seeded-silent] [id-substring ...] [-j N]
 """
 import json
 import os
@@ -91,6 +91,19 @@ def main():
                 continue
             own = meta["property"] if meta["property"] in det else det[0]
             pool.append({"id": "seeded-" + os.path.basename(d), "props": [own], "edits": [], "patch": os.path.join(d, "patch.diff"), "expect": {own: ""}, "silent": False})
+    if "--seeded-silent" in sys.argv:
+        # regression corpus, other direction: every confirmed behaviour-preserving refactoring that left the checks
+        # silent (seeded_silent/*, DESIGN 7.4) must stay silent on the checks that were run on it
+        import glob
+
+        pool = []
+        for d in sorted(glob.glob(os.path.join(VERIF, "seeded_silent", "*"))):
+            try:
+                meta = json.load(open(os.path.join(d, "meta.json")))
+            except Exception:
+                continue
+            if meta.get("valid") and meta.get("alarms") == {}:
+                pool.append({"id": "silent-" + os.path.basename(d), "props": meta.get("checks_run") or [meta["property"]], "edits": [], "patch": os.path.join(d, "patch.diff"), "expect": {}, "silent": True})
     ms = [m for m in pool if not args or any(a in m["id"] for a in args)]
     bad = 0
     with ThreadPoolExecutor(max_workers=jobs) as ex:
